@@ -308,10 +308,11 @@ def plan(tier, seed):
 
 def plan_histories(tier):
     if tier == 'quick':
-        ccs = ['gcc-O0', 'clang-O2', 'gcc-O2', 'clang-O0', 'clang-O1-san', 'gcc-O1-san']
+        ccs = ['gcc-O0', 'clang-O2', 'gcc-O2-gnu89', 'clang-O0', 'clang-O1-san', 'gcc-O1-san', 'clang-O2-uchar']
         return [{'maker': 'c05_history', 'ncases': 25, 'ccs': ccs, 'nsteps': 120, 'shrink_budget': 25, 'reduce_budget': 30}
                 for _ in range(32)]
-    ccs = ['gcc-O0', 'clang-O2', 'gcc-O2', 'clang-O0', 'gcc-O3', 'clang-O3', 'gcc-O0-gnu89', 'clang-O2-gnu89', 'clang-O1-san']
+    ccs = ['gcc-O0', 'clang-O2', 'gcc-O2', 'clang-O0', 'gcc-O3', 'clang-O3', 'gcc-O0-gnu89', 'clang-O2-gnu89', 'clang-O1-san',
+           'gcc-O1-uchar', 'clang-O2-uchar']
     return [{'maker': 'c05_history', 'ncases': 250, 'ccs': ccs, 'nsteps': 300, 'shrink_budget': 40, 'reduce_budget': 40}
             for _ in range(64)]
 
